@@ -268,3 +268,153 @@ if __name__ == '__main__':
     print(c, len(f))
     for x in f[:5]:
         print(x)
+
+
+# ------------------------------------------------------------------ isolation across compositions (C09)
+def _deep_mutate(x, depth=0):
+    import numpy as np
+    if depth > 6:
+        return
+    if isinstance(x, dict):
+        for v in list(x.values()):
+            _deep_mutate(v, depth + 1)
+        x['MUTATED'] = 1
+    elif isinstance(x, list):
+        for v in list(x):
+            _deep_mutate(v, depth + 1)
+        x.append('MUTATED')
+    elif isinstance(x, tuple):
+        for v in x:
+            _deep_mutate(v, depth + 1)
+    elif isinstance(x, np.ndarray) and x.size and x.dtype != object:
+        x[...] = -7
+
+
+def search_isolation(tier='quick', seed=0, count=None):
+    """C09 across compositions: a random pipeline (same operations as above) over a source made by new() in a random
+    immutability mode and example shape, optionally with a memory / disk cache somewhere in it, is built three times:
+      twin 0 is observed untouched (the pristine observation), then everything it hands out is mutated and it is observed
+             again (hits);
+      twin 1: the ORIGINAL container and examples are mutated right after construction (pickle and wu modes), then observed;
+      twin 2: every example is mutated at its FIRST hand-out (misses: iteration, items, indices, keys, a copy), then observed.
+    Every observation must equal the pristine one."""
+    import shutil
+    import tempfile
+    import numpy as np
+    import lazy_dataset
+    OPS = ops()
+    names = [n for n in sorted(OPS) if n not in ('snapshot',)]
+    root = tempfile.mkdtemp(prefix='verif_fz_')
+    counter = [0]
+    N = count or (400 if tier == 'quick' else 4000)
+    fails, cases = [], 0
+    warnings.simplefilter('ignore')
+    master = random.Random(5000 + seed)
+
+    def mk_example(i, shape):
+        if shape == 'dict':
+            return {'v': [i, i + 1], 'arr': np.arange(3) + i, 'nested': {'l': [i]}}
+        if shape == 'tuple':
+            return ([i, i + 1], np.arange(3) + i, {'l': [i]})
+        if shape == 'big-array':
+            return np.arange(9000) + i
+        return [[i], {'l': [i]}]
+
+    def build(sub):
+        rnd = random.Random(sub)
+        n = rnd.randrange(1, 5)
+        shape = rnd.choice(('dict', 'dict', 'tuple', 'list', 'big-array'))
+        mode = rnd.choice(('pickle', 'copy', 'wu'))
+        if mode != 'wu' and rnd.random() < 0.6:
+            keys = [chr(ord('a') + i) for i in range(n)]
+            orig = {k: mk_example(i, shape) for i, k in enumerate(keys)}
+            ds = lazy_dataset.new(orig, immutable_warranty=mode)
+            r = Ref([('v', i) for i in range(n)], keys)
+            desc = "new(dict[%d] of %s, %r)" % (n, shape, mode)
+        else:
+            orig = [mk_example(i, shape) for i in range(n)]
+            ds = lazy_dataset.new(orig, immutable_warranty=mode) if mode != 'wu' else lazy_dataset.from_list(orig, immutable_warranty='wu')
+            r = Ref([('v', i) for i in range(n)])
+            desc = "new(list[%d] of %s, %r)" % (n, shape, mode)
+        depth = rnd.randrange(0, 4)
+        applied = tries = 0
+        while applied < depth and tries < 12:
+            tries += 1
+            name = rnd.choice(names + ['cache', 'cache', 'diskcache'])
+            if name == 'diskcache':
+                if not r.idx:
+                    continue
+                counter[0] += 1
+                ds = ds.diskcache('%s/c%d' % (root, counter[0]))
+                desc += '.diskcache'
+                applied += 1
+                continue
+            if name in ('sort', 'filter', 'filter_eager') and shape == 'big-array':
+                continue        # repr-based predicates on big arrays are slow and add nothing
+            res = OPS[name](ds, r, rnd)
+            if res is None:
+                continue
+            ds, r = res
+            desc += '.' + name
+            applied += 1
+        return ds, r, desc, orig, mode
+
+    def snapshot(ds, r):
+        probe = [k for k in (r.keys or [])][:3]
+        ob = O.observe(ds, probe_keys=probe)
+        ob.pop('getitem_np', None)
+        return repr(ob)
+
+    def mutate_all(ds, r):
+        probe = [k for k in (r.keys or [])][:3]
+        for x in ds:
+            _deep_mutate(x)
+        for thunk in ([lambda: [_deep_mutate(x) for _, x in ds.items()]]
+                      + ([lambda i=i: _deep_mutate(ds[i]) for i in range(r.n)] + [lambda i=i: _deep_mutate(ds[i - r.n]) for i in range(r.n)] if r.idx else [])
+                      + [lambda k=k: _deep_mutate(ds[k]) for k in probe]
+                      + [lambda: [_deep_mutate(x) for x in ds.copy()]]):
+            try:
+                thunk()
+            except Exception:      # noqa
+                pass
+    np.set_printoptions(threshold=20)
+    while cases < N:
+        sub = master.randrange(10 ** 9)
+        try:
+            ds0, r, desc, _, mode = build(sub)
+        except Exception:      # noqa  (construction problems belong to the conformance search)
+            continue
+        cases += 1
+        try:
+            base = snapshot(ds0, r)
+            mutate_all(ds0, r)
+            after_hits = snapshot(ds0, r)
+            results = [('every handed-out example mutated (after a first pristine pass)', after_hits)]
+            ds1, r1, _, orig, _ = build(sub)
+            if mode in ('pickle', 'wu'):
+                for x in (orig.values() if isinstance(orig, dict) else orig):
+                    _deep_mutate(x)
+                if isinstance(orig, dict):
+                    orig['zzz'] = 1
+                else:
+                    orig.append(1)
+                results.append(('the original container and examples mutated right after construction', snapshot(ds1, r1)))
+            ds2, r2, _, _, _ = build(sub)
+            mutate_all(ds2, r2)
+            results.append(('every example mutated at its FIRST hand-out', snapshot(ds2, r2)))
+        except BaseException as e:      # noqa
+            fails.append({'scenario': desc, 'mismatches': [{'clause': 'observation', 'observed': '%s: %s' % (type(e).__name__, str(e)[:120]), 'expected': 'observable'}]})
+            continue
+        for what, got in results:
+            if got != base:
+                i = next((j for j in range(min(len(base), len(got))) if base[j] != got[j]), 0)
+                fails.append({'scenario': desc + '; ' + what, 'mismatches': [{'clause': 'isolation-of-handed-out-examples',
+                                                                            'observed': got[max(0, i - 80):i + 120], 'expected': base[max(0, i - 80):i + 120]}]})
+                break
+        if len(fails) >= 3:
+            break
+    import gc
+    ds0 = ds1 = ds2 = None
+    gc.collect()
+    shutil.rmtree(root, ignore_errors=True)
+    return cases, fails
